@@ -37,6 +37,10 @@ SETS = {
     'addr': {'operand_values': {'abs': {'type': 'numeric', 'argument': {'size': 16, 'byte_align': True}}}},
     'rel': {'operand_values': {'rel': {'type': 'relative_address',
                                        'argument': {'size': 8, 'byte_align': True, 'min': -128, 'max': 127}}}},
+    'relb': {'operand_values': {
+        'rel': {'type': 'relative_address', 'use_curly_braces': True,
+                'argument': {'size': 8, 'byte_align': True, 'min': -128, 'max': 127}},
+        'abs': {'type': 'numeric', 'bytecode': {'value': 1, 'size': 1}, 'argument': {'size': 16, 'byte_align': True}}}},
     'rele': {'operand_values': {'rel': {'type': 'relative_address', 'offset_from_instruction_end': True,
                                         'argument': {'size': 8, 'byte_align': True, 'min': -128, 'max': 127}}}},
     'mem': {'operand_values': {
@@ -54,7 +58,7 @@ SETS = {
 }
 # mnemonic -> operand sets; t12 is 12 bits, h3 is 3 bits: steps that are not whole bytes
 BASE = {'nop': [], 'h3': [], 'ldi': ['imm8'], 't12': ['imm8'], 'jmp': ['addr'], 'br': ['rel'], 'mov': ['regs', 'regs'],
-        'brx': ['regs', 'rel'], 'bre': ['rele'], 'brxe': ['regs', 'rele'], 'ldm': ['mem']}
+        'brx': ['regs', 'rel'], 'bre': ['rele'], 'brxe': ['regs', 'rele'], 'ldm': ['mem'], 'jb': ['relb']}
 LABELS = ['start', 'loop', 'done', 'tbl', 'vec']
 
 
@@ -70,6 +74,7 @@ def base_isa(draw):
         'mov': {'bytecode': {'value': draw(st.integers(0, 15)), 'size': 4}, 'operands': {'count': 2, 'operand_sets': {'list': ['regs', 'regs']}}},
         'brx': {'bytecode': {'value': draw(st.integers(0, 63)), 'size': 6}, 'operands': {'count': 2, 'operand_sets': {'list': ['regs', 'rel']}}},
         'ldm': {'bytecode': {'value': draw(st.integers(0, 63)), 'size': 6}, 'operands': {'count': 1, 'operand_sets': {'list': ['mem']}}},
+        'jb': {'bytecode': {'value': draw(st.integers(0, 127)), 'size': 7}, 'operands': {'count': 1, 'operand_sets': {'list': ['relb']}}},
         'bre': {'bytecode': {'value': draw(st.integers(0, 255)), 'size': 8}, 'operands': {'count': 1, 'operand_sets': {'list': ['rele']}}},
         'brxe': {'bytecode': {'value': draw(st.integers(0, 63)), 'size': 6}, 'operands': {'count': 2, 'operand_sets': {'list': ['regs', 'rele']}}},
     }
@@ -82,9 +87,15 @@ def base_isa(draw):
 @st.composite
 def _macro_variant(draw, nops_choices=(0, 1, 1, 2, 2)):
     nops = draw(st.sampled_from(nops_choices))
-    osets = [draw(st.sampled_from(['imm8', 'addr', 'rel', 'regs', 'regs', 'mem'])) for _ in range(nops)]
+    osets = [draw(st.sampled_from(['imm8', 'addr', 'rel', 'regs', 'regs', 'mem', 'relb'])) for _ in range(nops)]
     v = {}
-    if nops or draw(st.booleans()):
+    if nops == 0 and draw(st.integers(0, 3)) == 0:
+        # a listed combination whose only member is an 'empty' operand: invoked without operands
+        v['operands'] = {'count': 1, 'specific_operands': {'none': {'list': {'e': {'type': 'empty', 'bytecode': {'value': 1, 'size': 2}}}}}}
+        if draw(st.booleans()):
+            v['operands']['operand_sets'] = {'list': ['imm8']}
+            osets = []
+    elif nops or draw(st.booleans()):
         v['operands'] = {'count': nops}
         if nops:
             v['operands']['operand_sets'] = {'list': osets}
@@ -106,6 +117,14 @@ def _macro_variant(draw, nops_choices=(0, 1, 1, 2, 2)):
                     slots.append(draw(st.sampled_from(LABELS)))
                 else:
                     slots.append(str(draw(st.integers(0, 255))))
+            elif slot_set == 'relb':
+                b_like = [i for i, s_ in enumerate(osets) if s_ == 'relb']
+                if b_like and k < 7:
+                    slots.append(f'@OP({draw(st.sampled_from(b_like))})')
+                elif numeric_like and k < 9:
+                    slots.append('{' + f'@ARG({draw(st.sampled_from(numeric_like))})' + '}')
+                else:
+                    slots.append(draw(st.sampled_from(['{loop}', 'tbl', '{done + 1}'])))
             elif slot_set == 'mem':
                 mem_like = [i for i, s_ in enumerate(osets) if s_ == 'mem']
                 if mem_like and k < 7:
@@ -176,6 +195,9 @@ def _operand(draw, sname, labels):
         if draw(st.booleans()):
             return {'k': 'expr', 'e': ['lab', draw(st.sampled_from(labels))]}
         return {'k': 'expr', 'e': isagen.value_ast(draw, draw(st.integers(0, 65535)), None)}
+    if sname == 'relb':
+        e = ['lab', draw(st.sampled_from(labels))]
+        return {'k': draw(st.sampled_from(['braced', 'braced', 'expr'])), 'e': e}
     if sname == 'mem':
         k = draw(st.sampled_from(['indnum', 'defnum', 'expr']))
         if k == 'expr':
